@@ -468,3 +468,50 @@ Proof.
   - exact cond_invert_flag_subs.
   - exact conj_clean_flag_subs.
 Qed.
+
+(* ------------------------------------------------------------------ the simple-ID fast path never expands a range *)
+(* cleanSimpleIDFilter takes ONE id from every conjunct (it gives up when a conjunct admits more than one id), so the ids it
+   collects, sorts and groups are as many as the conjuncts of the set - whatever the magnitudes of the numerals - and its
+   result has at most that many conjuncts, of two conditions each. A variant that walks through the ids of a range does not
+   satisfy this (seeded change C14-r4a-n2). *)
+Lemma simple_ids_length cs : forall ids, simple_ids cs = Some ids -> length ids = length cs.
+Proof.
+  induction cs as [|cc r IH]; cbn [simple_ids]; intros ids H; [inversion H; reflexivity|].
+  destruct (extract_simple_id (conj_clean cc)) as [[mn mx]|]; [|discriminate].
+  destruct (Z.eqb mn mx); [|discriminate]. destruct (simple_ids r) as [l|]; [|discriminate].
+  inversion H; subst. cbn. rewrite (IH l eq_refl). reflexivity.
+Qed.
+Lemma simple_ids_single cs ids : simple_ids cs = Some ids ->
+  Forall (fun cc => exists i, extract_simple_id (conj_clean cc) = Some (i, i)) cs.
+Proof.
+  revert ids; induction cs as [|cc r IH]; cbn [simple_ids]; intros ids H; [constructor|].
+  destruct (extract_simple_id (conj_clean cc)) as [[mn mx]|] eqn:E; [|discriminate].
+  destruct (Z.eqb mn mx) eqn:Em; [|discriminate]. destruct (simple_ids r) as [l|] eqn:El; [|discriminate].
+  apply Z.eqb_eq in Em. subst mx. constructor; [exists mn; exact E|]. apply (IH l). reflexivity.
+Qed.
+Lemma zuniq_length rest : forall a, (length (zuniq a rest) <= S (length rest))%nat.
+Proof.
+  induction rest as [|b r IH]; intros a; cbn [zuniq length]; [lia|].
+  destruct (Z.eqb a b); [specialize (IH a)|specialize (IH b)]; cbn [length]; lia.
+Qed.
+Lemma id_runs_length rest : forall mn mx, (length (id_runs mn mx rest) <= S (length rest))%nat.
+Proof.
+  induction rest as [|b r IH]; intros mn mx; cbn [id_runs length]; [lia|].
+  destruct (Z.eqb b (mx + 1)); [specialize (IH mn b)|specialize (IH b b)]; cbn [length]; lia.
+Qed.
+Theorem simple_id_work_bounded cs :
+  (forall ids, simple_ids cs = Some ids -> length ids = length cs) /\
+  (forall out, clean_simple_id cs = Some out ->
+     (length out <= length cs)%nat /\ Forall (fun c => length c = 2%nat) out).
+Proof.
+  split; [apply simple_ids_length|]. intros out H. unfold clean_simple_id in H.
+  destruct cs as [|c0 cr]; [discriminate|]. set (cs := c0 :: cr) in *.
+  destruct (simple_ids cs) as [ids|] eqn:Ei; [|discriminate].
+  pose proof (simple_ids_length cs ids Ei) as Hl.
+  pose proof (Permutation_length (isort_perm (fun x => [x]) ids)) as Hp.
+  destruct (isort (fun x => [x]) ids) as [|a r]; [inversion H; subst; split; [cbn; lia|constructor]|].
+  pose proof (zuniq_length r a) as Hz.
+  destruct (zuniq a r) as [|m r']; [inversion H; subst; split; [cbn; lia|constructor]|].
+  inversion H; subst out. rewrite map_length. pose proof (id_runs_length r' m m) as Hr. cbn [length] in *. split; [lia|].
+  apply Forall_map. apply Forall_forall. intros x _. reflexivity.
+Qed.
